@@ -28,7 +28,7 @@ ASSUMPTIONS = ["field values are canonical for their type (render = identity on 
                "values contain neither SOH nor NUL (data fields with SOH belong to C06)"]
 RULE = ("messages generated from the dumped metadata: every message type, mandatory fields plus a random optional subset, "
         "values per field type, groups with 0..3 elements nested to the schema's depth, random insertion order; all insertion "
-        "permutations of small messages; BodyLength boundaries 99/100/101 and 999/1000/1001; second encode (ENC2) and "
+        "permutations of small messages; large (1.1 KB .. 7.9 KB) messages of bytes >= 0x80 (0xff, random, UTF-8 Cyrillic/CJK; ASCII controls) in string fields and in groups of text lines; BodyLength boundaries 99/100/101 and 999/1000/1001; second encode (ENC2) and "
         "elements without their first field as known-finding classes; RT cases decode the real bytes on both sides. "
         "non-trivial = an OK result with at least 8 tokens; distinct = distinct case lines")
 
@@ -114,6 +114,12 @@ def gen_cases(rng, tier):
                     cs.append(Case(px + "ENC " + G.ser_msg(mt, hdr, b2, trl), "bodylength-%d" % target))
             if not thorough and len([c for c in cs if c.cls.startswith("bodylength")]) > 60:
                 break
+        # large messages made of bytes >= 0x80 (0xff runs, random high bytes, UTF-8 Cyrillic / CJK) and ASCII
+        # controls, about 1.1 / 1.6 / 2.4 / 4 KB and close to the 8 KB encode limit, through string fields and
+        # through groups of text lines: the byte lanes of calc_chksum carry only on such content, and only
+        # an independent byte sum (wire_ok uses C07's specification sum) sees a wrong CheckSum
+        for cls, mt, hdr, body, trl in G.highbyte_messages(meta, rng, max_types=6 if thorough else 4):
+            cs.append(Case(px + "ENC " + G.ser_msg(mt, hdr, body, trl), cls))
         # the hypotheses of c02_wellformed (wf_ctx of the message type, wf_msg, fresh) must hold for
         # generated well-formed objects: message types with -F fields that lack the position bit
         # are outside the theorem (see known finding unpositioned-order) and are skipped here
